@@ -158,6 +158,32 @@ class CASConflictError(Exception):
     pass
 
 
+def canonical_path(path: str) -> str:
+    """os.path.realpath() that refuses a result which still traverses a symlink.
+
+    realpath() does not fail on a symlink loop: it gives up and returns the
+    link plus the REST OF THE PATH UNRESOLVED, merely normalised lexically. A
+    '..' in that remainder then cancels the loop component
+    ('loop/../evil_link/x' -> '<root>/evil_link/x'), so the result looks
+    contained while opening it follows evil_link out of the table root. A
+    canonical path has no symlink component at all, so verify exactly that
+    instead of trusting realpath's fallback. Non-existent tails (files about
+    to be created) are still accepted: a missing component is not a link.
+    """
+    resolved = os.path.realpath(path)
+    probe = resolved
+    while True:
+        if os.path.islink(probe):
+            raise ValueError(
+                f"Security Error: Path traversal attempt detected. '{path}' cannot be "
+                f"canonicalised (symlink loop): '{probe}' is still a symbolic link"
+            )
+        parent = os.path.dirname(probe)
+        if parent == probe:
+            return resolved
+        probe = parent
+
+
 class LocalStorageBackend(StorageBackend):
     """Local filesystem storage backend"""
 
@@ -195,8 +221,9 @@ class LocalStorageBackend(StorageBackend):
             # Relative path
             joined_path = os.path.join(self.base_path, path)
 
-        # Canonicalize: resolve '..' AND symlinks
-        full_path = os.path.realpath(joined_path)
+        # Canonicalize: resolve '..' AND symlinks (refusing symlink loops, which
+        # realpath alone would leave unresolved)
+        full_path = canonical_path(joined_path)
         base_path = self._real_base_path()
 
         # Ensure the resolved path is within the base directory (true boundary
